@@ -85,6 +85,11 @@ def family(h, which, seed):
         c2 = Sphere2Plane(fr, pm, mu=0.0, r=0.125, e_N=0.0, name="c2")
         c3 = Sphere2Sphere(pm, pm2, 0.25, 0.5, 0.2, e_N=0.25, name="c3")
         sysm.add(a, pm, pm2, fr, c1, c2, c3, Force(np.array([0.0, 0.0, -9.81]), a, name="f"))
+    elif which == "rod_tendon":
+        # a spring between two cross-sections of the SAME rod: its index sets contain the shared element's DOFs twice
+        rod, Q, nn = lib.make_rod(h, interp="Quaternion", mixed=False, p=1, nel=1, Q="curved", seed=seed, assemble=False)
+        tp = TwoPointInteraction(rod, rod, xi1=0.0, xi2=1.0, name="tp")
+        sysm.add(rod, tp, Spring(tp, 3.0, l_ref=0.5, compliance_form=False, name="tendon"))
     else:
         from cardillo.rods.force_line_distributed import Force_line_distributed
         rod, Q, nn = lib.make_rod(h, interp="Quaternion", mixed=(which == "rod_mixed"), constraints=([1, 2] if which == "rod_mixed" else None), p=1, nel=2,
@@ -141,12 +146,12 @@ def _dense(x):
     return np.asarray(x)
 
 
-def scatter(h, which="mechanism", group=0, seed=0):
+def scatter(h, which="mechanism", group=0, seed=0, only=None):
     sysm = family(h, which, seed)
     t, q, u, ud, la = _state(h, sysm)
     has = lambda c, p: hasattr(c, p) and callable(getattr(c, p))
     names = sorted(VEC) + sorted(MAT)
-    mine = [n for i, n in enumerate(names) if i % 4 == group]
+    mine = [n for i, n in enumerate(names) if i % 4 == group] if only is None else list(only)
     obj = object if h.sym else float
     for name in mine:
         if name in VEC:
@@ -154,7 +159,9 @@ def scatter(h, which="mechanism", group=0, seed=0):
             contrs = [c for c in sysm.contributions if has(c, base)]
             ref = np.zeros(getattr(sysm, SIZES[rdof]), dtype=obj)
             for c in contrs:
-                ref[getattr(c, rdof)] = ref[getattr(c, rdof)] + np.atleast_1d(getattr(c, meth)(*_args(letters, c, t, q, u, ud, la)))
+                val = np.atleast_1d(getattr(c, meth)(*_args(letters, c, t, q, u, ud, la)))
+                for i, ri in enumerate(getattr(c, rdof)):          # (entry by entry: an index set may contain a DOF twice)
+                    ref[ri] = ref[ri] + val[i]
             sargs = dict(tq=(t, q), tqu=(t, q, u), tqua=(t, q, u, ud), tquC=(t, q, u, la["C"]))[letters]
         else:
             base, meth, letters, rdof, cdof = MAT[name]
@@ -183,7 +190,7 @@ def scatter(h, which="mechanism", group=0, seed=0):
             h.holds(f"System.{name}: a contribution declares the quantity unimplemented", True)
             continue
         h.eq(f"System.{name} = scatter of the contributions", _dense(val), ref)
-    if group == 0:
+    if group == 0 and only is None:
         M = _dense(sysm.M(t, q))
         ref = np.zeros((sysm.nu, sysm.nu), dtype=obj)
         for c in sysm.contributions:
@@ -392,6 +399,7 @@ def cases(tier, seed):
             cs.append(Case(f"scatter/{which}/group{g}", scatter, dict(which=which, group=g, seed=seed), timeout=T, hard=1200, sentinel=False))
         cs.append(Case(f"layout/{which}", layout, dict(which=which, seed=seed), timeout=T, sentinel=False))
         cs.append(Case(f"derived/{which}", derived, dict(which=which, seed=seed), timeout=T, hard=T * 8, sentinel=False))
+    cs.append(Case("scatter/rod_tendon/h", scatter, dict(which="rod_tendon", group=0, seed=seed, only=("h", "h_q", "h_u")), timeout=T, hard=1200, sentinel=False))
     cs.append(Case("derived/actuators", derived, dict(which="actuators", seed=seed), timeout=T, hard=T * 8, sentinel=False))
     cs.append(Case("layout_only/actuators", layout, dict(which="actuators", seed=seed, evaluations=False), timeout=T, sentinel=False))
     L = 3 if tier == "quick" else 4
